@@ -147,10 +147,21 @@ func (P *Program) Check(opt CheckOpts) int {
 		return 2
 	}
 	P.Findings = map[string]*Finding{}
+	anyFinding := map[string]bool{} // obligations that are known findings of any property (they fail: no point in trying a group they belong to)
 	for _, f := range findings {
+		anyFinding[f.Obligation] = true
 		if f.Property == prop {
 			P.Findings[f.Obligation] = f
 		}
+	}
+	knownFails := func(name string) bool {
+		if anyFinding[name] {
+			return true
+		}
+		if i := strings.LastIndex(name, "."); i > 0 && anyFinding[name[:i]] {
+			return true
+		}
+		return false
 	}
 	// functions under contract for this property
 	var fns []*ssa.Function
@@ -231,7 +242,7 @@ func (P *Program) Check(opt CheckOpts) int {
 	}
 	want = func(o *Obligation) bool { return sel[o] }
 	DischargeAll(results, want, DischargeOpts{Tier: opt.Tier, TimeoutS: opt.TimeoutS, WorkDir: work, Keep: opt.Keep,
-		Short: func(o *Obligation) bool { return P.findingFor(o.Name) != nil && opt.Tier != "thorough" }})
+		Short: func(o *Obligation) bool { return (P.findingFor(o.Name) != nil || knownFails(o.Name)) && opt.Tier != "thorough" }})
 
 	// ---- assess ----
 	total, discharged := 0, 0
